@@ -39,10 +39,10 @@ CHECKS = {
          "Seeded search over (call, arguments, reply) x map-order permutations at all 46 range-over-map sites x batch key supply orders: request line, query, headers and body and the response headers and body are byte-identical in every execution; JSON object keys, query parameter names and batch ids are in ascending order (checked with encoding/json and plain string splitting). Sampled.",
          S4NOTE + " Requests are handed to the handler in-process (no scheduler involved: the only nondeterminism here is iteration order).", "§4 C09"),
  "C12": ("genfs-processes", "deterministic simulation of the generator as OS processes: map iteration order from a seeded stream, file-system calls through a fault-injecting shim; trees compared byte for byte",
-         "Determinism (every family / small / checked-in manifest regenerated in fresh processes under drawn map orders is byte-identical to the canonical-order tree), regeneration equivalence (checked-in v2/restlidata *.gr.go = what the current generator produces from the checked-in manifest), convergence of regeneration over crashed or half-cleaned directories; the binding family generated by the current generator compiles (it is the code every S4 check builds). Totality over the schema grammar is not claimed. Sampled.",
+         "Determinism (every family / small / checked-in manifest regenerated in fresh processes under drawn map orders is byte-identical to the canonical-order tree), regeneration equivalence (checked-in v2/restlidata *.gr.go vs what the current generator produces from the checked-in manifest: byte for byte, and when the bytes differ, equivalence judged on compiled code - exported API listing plus a generated differential test of encodings, decodings, equality, hashes and defaults), convergence of regeneration over crashed or half-cleaned directories; the family and the small manifest generated by the current generator are built against the runtime (a compile error is a violation of C12). The same determinism / compile / crash batches run against the ROOT module's generator. Totality over the schema grammar is not claimed. Sampled.",
          "real: cmd.GenerateCode and codegen/* in one OS process per run; stub: os call path (sim/simos), map order (sim/simrt). Map ranges with pointer keys keep Go's order (none today, counted).", "§4 C12"),
  "C20": ("genfs-processes", "deterministic simulation with fault injection of the generator's file-system path: ownership monitor evaluated at every destructive call, seeded errors / torn writes / crashes at drawn call ordinals, workload continues after restart",
-         "Seeded search over directory trees (depth <= 3, look-alike names, target absent or '.') x workloads of clean / generate processes x one injected fault (EACCES, ENOSPC, EIO, torn write, crash before / in / after a call): every remove / overwrite / create targets a path the generator owns or an empty directory at that instant, every foreign file stays byte-identical and reachable, clean is idempotent, a successful generate equals an undisturbed one, an injected error is never swallowed into an incomplete success. Sampled.",
+         "Seeded search over directory trees (depth <= 3, look-alike names, target absent or '.') x workloads of clean / generate processes x one injected fault (EACCES, ENOSPC, EIO, torn write, crash before / in / after a call): every remove / overwrite / create targets a path the generator owns or an empty directory at that instant, every foreign file stays byte-identical and reachable, clean is idempotent, a successful generate equals an undisturbed one, an injected error is never swallowed into an incomplete success; a user directory at a generated file's path may stop generation but is never cleared. One batch drives the ROOT module's generator and cleaner. Sampled.",
          "real: CleanTargetDir, WriteJenFile, GenerateCode as OS processes on a scratch directory; stub: os / ioutil call path of packages cmd and codegen/utils. Crash = exit at a call boundary or inside a torn write (the generator never syncs).", "§4 C20"),
  "C14": ("token-kernel", S4TECH + "; twin execution (tunnelling off vs threshold around the call's own query length)",
          "Twin execution of every call with thresholds {1, len-1, len, len+1, 10^6, off}: wire shape on both sides of the threshold, identical request view for routing/filters/resource after de-tunnelling, identical client results; damaged tunnelled requests -> 400 untouched. Sampled.",
@@ -51,14 +51,14 @@ CHECKS = {
          "Batch get/update/partial_update/delete over every key type of the family with duplicates under key equality (complex keys equal up to params), real 32-bit FNV-1a bucket collisions, metacharacter keys; replies with a dropped or an unrequested key: duplicates refused before sending, ids received as the same set, every entry under the caller's own key (pointer identity), unrequested key -> error. Sampled.",
          S4NOTE, "§4 C16"),
  "C17": ("token-kernel", "deterministic simulation: seeded serial schedules of real goroutines under the race detector (raw-pipe parking keeps TSan effective), per-request outcomes compared with the serial model",
-         "Seeded search over interleavings of N tasks sharing one custom-typeref registry / one d2.Client (update loops + resolvers) / one handler and one client (mixed methods, shared error objects, late registration, lossy faults): zero race-detector reports and per-task results equal to the serial expectation on every explored schedule. Sampled, not exhaustive.",
+         "Seeded search over interleavings of N tasks sharing one custom-typeref registry / one d2.Client (update loops + resolvers) / one handler and one client (mixed methods, shared error objects, late registration, lossy faults): zero race-detector reports and per-task results equal to the serial expectation on every explored schedule; plus the real d2.Client / TreeCache / ZooKeeper client against the simulated ensemble under -race in a go1.26.8 synctest bubble with seeded select order, run-queue order and wake-up preemption (runtime overlay); S4 batches also against the ROOT module. Race reports whose access stacks lie wholly inside a third-party dependency are counted, not reported. Sampled, not exhaustive.",
          "trusts the Go race detector (bounded history), the token kernel and the sync shim (each operation = yield + the real primitive); one channel send/receive per simulated message is the only harness-made happens-before edge", "§4 C17, §2.2"),
  "C18": ("token-kernel", "deterministic simulation: seeded schedules at the granularity of the real sync.Map/WaitGroup steps; porcupine linearizability check of every recorded history against a compute-if-absent map",
          "Seeded search over interleavings of 2-4 clients x 1-3 operations on the real lazymap; each history is checked with porcupine against a sequential model, plus at-most-once compute, no placeholder leak, no deadlock; also under the race detector. Sampled, not exhaustive.",
          "trusts porcupine v1.3.0, the sync shim (yield + real primitive) and the assumption that sync.Map / WaitGroup operations are the atomic steps", "§4 C18"),
  "C19": ("token-kernel", "deterministic simulation: seeded event histories pushed through the real update loops while resolver tasks interleave; reference-model fold, snapshot immutability monitor, selection oracle with simulator-owned map order and random source",
-         "Seeded search over announcement histories x schedules x map orders x random draws (incl. 0 and 1-2^-53): every published snapshot is the fold of a history prefix, published snapshots never change, every resolution is a legal selection on a snapshot current during the call, even sweep is weight-proportional. Sampled, not exhaustive.",
-         "ZooKeeper/TreeCache replaced by a channel feed (as in the repo's own tests); in-package access through an overlay-added export file; trusts the reference fold written from the property text", "§4 C19"),
+         "Seeded search over announcement histories x schedules x map orders x random draws (incl. 0 and 1-2^-53): every published snapshot is the fold of a history prefix, published snapshots never change, every resolution is a legal selection on a snapshot current during the call, even sweep is weight-proportional (S2, both modules). S3: the real d2.Client, TreeCache and go-zookeeper client against a simulated ensemble (jute protocol over net.Pipe, faithful setWatches / zxid ordering) in a go1.26.8 synctest bubble on a fake clock, with connection drops, session expiry, error replies, held and singly delivered notifications: resolvers return within the configured timeout bound and only announced hosts of allowed schemes; the tracked set equals the fold of what TreeCache emitted after every stimulus; and 600 virtual seconds after the last fault it equals the tree (bounded liveness) for every history of valid announcements. Sampled, not exhaustive.",
+         "S2: ZooKeeper/TreeCache replaced by a channel feed (as in the repo's own tests); S3: only the ensemble, the clock and the choice of who runs are simulated (runtime overlay: select order, simultaneous timers, wake-up preemption). In-package access through an overlay-added export file; trusts the reference fold written from the property text", "§4 C19, §12"),
 }
 
 def main():
@@ -80,7 +80,7 @@ def main():
         "setup_cmd": f"cd /verif && {ENV} go build -o bin/vcheck ./cmd/vcheck && {ENV} go build -o bin/instrument ./cmd/instrument",
         "hooks": {
             "guard": "verif",
-            "enable": "no source hooks are committed to /repo: every check derives its seams from /repo's current working tree at run time (cmd/instrument: sync->shim import swap, range-over-map rewrite, os call redirect, in-package export files) and builds with `go test -overlay <scratch>/overlay.json -vet=off`; the build tag `verif` is reserved and unused",
+            "enable": "no source hooks are committed to /repo: every check derives its seams from /repo's current working tree at run time (cmd/instrument: sync->shim import swap, range-over-map rewrite, os call redirect, in-package export files) and builds with `go test -overlay <scratch>/overlay.json -vet=off`; back end B additionally overlays five expressions of go1.26.8's runtime (select poll order, bubbled-timer tie-break, run-queue randomization, wake-up preemption; overlayfiles/runtime) and a writable copy of the pinned go-zookeeper module; the build tag `verif` is reserved and unused",
             "baseline_off_cmd": "for m in . v2; do (cd /repo/$m && GOFLAGS=-mod=mod GOPROXY=off GOSUMDB=off go test -json -vet=off -count=1 -timeout 25m ./...); done",
             "source_commits": [],
             "add_only": True,
